@@ -15,6 +15,8 @@ build() {
 case "${1:-}" in
   setup)
     build
+    # the reference kernel's own tests (big-number cross-check, independent formulations, symmetries)
+    (cd mc && go test -count=1 ./exact) || { echo "HARNESS-ERROR: the exact kernel's self-tests fail" >&2; exit 1; }
     "$BIN/verif" warm || exit 1
     exit 0 ;;
   replay)
